@@ -97,7 +97,7 @@ class SBool:
         raise SymbolicEscape("hash of symbolic bool")
 
     def __repr__(self):
-        return f"SBool({self.e})"
+        return "SBool(" + self.e.sexpr()[:80] + ")"
 
 
 def _inf_cmp(op, o):
@@ -230,13 +230,13 @@ class SNum:
         return CUR.branch(self.e != 0)
 
     def __repr__(self):
-        return f"SNum({self.e})"
+        return "SNum(" + self.e.sexpr()[:80] + ")"       # z3's Python pretty-printer is far too slow for big terms
 
     def __format__(self, spec):
-        return f"<sym {self.e}>"
+        return "<sym " + self.e.sexpr()[:80] + ">"
 
     def __str__(self):
-        return f"<sym {self.e}>"
+        return "<sym " + self.e.sexpr()[:80] + ">"
 
 
 def _mul(a, b):
@@ -279,6 +279,7 @@ class PathCtx:
         self.model = None
         self.alts = []
         self.choices = []      # values returned by choose() on this path (for replays)
+        self.pinned = []       # choices to be replayed without forking (second run of the same computation)
 
     def _ensure_model(self):
         if self.model is None:
@@ -329,6 +330,11 @@ class PathCtx:
 
     def choose(self, n, label="choice"):
         """nondeterministic value in range(n) (environment stub: random choice, solver's pick, ...)"""
+        if self.pinned:
+            lab, v = self.pinned.pop(0)
+            v = min(v, n - 1)
+            self.choices.append((label, v))
+            return v
         lo, hi = 0, n
         while hi - lo > 1:
             mid = (lo + hi) // 2
